@@ -433,12 +433,28 @@ def r4_restriction_argument(ctx, chk, rule="C02.4"):
     st = ("elem", L.id)
     idx_ok = (("pos", L.id), ("attr", st, "idx"))
     # (a `continue` skips the rest of one iteration, not a state: what it skips shows in the condition of the call below)
-    if L.source != slist and (L.source[0] in ("compr", "res", "apply") or (L.source[0] == "call" and L.source[1] in ("filter", "enumerate", "zip", "map")
+    sel = _position_selection(ctx, sg, L, slist)
+    if sel is not None:
+        verdict, text = sel
+        if verdict == "bad":
+            chk.violation(rule, g.where(L.node), text, expected="every Player-1 state (a final Player-1 state still has a choice to restrict)", found=show(L.source)[:100],
+                          construct="prune_reachability coverage")
+            return
+        if verdict is None:
+            chk.undecided(rule, g.where(L.node), text)
+            return
+        chk.ok(rule, g.where(L.node), text)
+        st = simp(("idx", slist, ("elem", L.id)))
+        idx_ok = (("elem", L.id),)
+        if L.has_break or L.has_return or len(cs) != 1:
+            chk.undecided(rule, g.where(L.node), "the loop over the selected positions has an early exit / %d restriction calls" % len(cs))
+            return
+    elif L.source != slist and (L.source[0] in ("compr", "res", "apply") or (L.source[0] == "call" and L.source[1] in ("filter", "enumerate", "zip", "map")
                                                                           and mentions(L.source, lambda x: x == slist))) and not L.has_break and not L.has_return:
         # the Player-1 states (or their positions) selected first, restricted afterwards: the selection is not followed here
         chk.undecided(rule, g.where(L.node), "prune_reachability iterates `%s`, a selection computed from the state list: that it holds every Player-1 state is not resolved" % show(L.source)[:80])
         return
-    if L.source != slist or not L.whole or L.has_break or L.has_return or len(cs) != 1:
+    if sel is None and (L.source != slist or not L.whole or L.has_break or L.has_return or len(cs) != 1):
         chk.violation(rule, g.where(L.node), "prune_reachability does not restrict every Player-1 state of the whole list", expected="for idx, state in enumerate(self.state_list)",
                       found=norm_stmt(L.node), construct="prune_reachability coverage")
         return
@@ -453,6 +469,54 @@ def r4_restriction_argument(ctx, chk, rule="C02.4"):
                       expected="%s[<position of the state>]" % g.params[1], found=show(a), construct="prune_reachability index")
     else:
         chk.ok(rule, g.where(L.node), "every Player-1 state of the whole list is restricted by its own entry %s[idx]" % g.params[1])
+
+
+def _position_selection(ctx, sg, L, slist):
+    """`for idx in <selection of positions>: state = self.state_list[idx]` where the selection falls back to all positions when the
+    solver has not kept the backward search's result.  ('ok' | 'bad' | None, text), or None when the loop is not of that kind.
+    Lemma used: a NON-FINAL state from which no final state is reachable has value 0 and so has every successor - all its
+    actions are in its reachability strategy, there is nothing to cut; a FINAL state is not in the backward search's result
+    although its successors can have any value."""
+    src_t = L.source
+    n_all = (("call", "range", (("call", "len", (slist,), ()),), ()), ("call", "range", (C(0), ("call", "len", (slist,), ())), ()))
+    if not (src_t[0] == "ite" and (src_t[2] in n_all or src_t[3] in n_all)):
+        return None
+    sel = src_t[3] if src_t[2] in n_all else src_t[2]
+    inner_terms = [sel] + (list(sg.loops[sel[1]].filters) if sel[0] == "compr" and sel[1] in sg.loops else [])
+    fields = sorted({x[2] for t_ in inner_terms for x in C03._sub(t_) if x[0] == "attr" and x[1] == ("v", "self") and x != slist})
+    # which solver field holds what: assigned from the result of reverse_dfs / from the final-state parameter
+    reach_f, final_f = set(), set()
+    for m in ctx.prog.classes["Solver"].methods.values():
+        cfg_m = None
+        for st_ in walk_no_nested_defs(m.node):
+            if isinstance(st_, ast.Assign) and len(st_.targets) == 1 and isinstance(st_.targets[0], ast.Attribute) and attr_path(st_.targets[0]) \
+                    and attr_path(st_.targets[0]).startswith("self.") and isinstance(st_.value, ast.Name):
+                fld = st_.targets[0].attr
+                cfg_m = cfg_m or ctx.cfg(m)
+                defs = cfg_m.defs_reaching(st_, st_.value.id)
+                if defs and all(isinstance(d, ast.Assign) and isinstance(d.value, ast.Call) and call_name(d.value) == "reverse_dfs" for d in defs):
+                    reach_f.add(fld)
+                elif (not defs or all(isinstance(d, str) for d in defs)) and st_.value.id in m.params and "final" in st_.value.id:
+                    final_f.add(fld)
+    if not (set(fields) & reach_f):
+        return None
+    if sel[0] == "attr" and sel[2] in reach_f:
+        return ("bad", "prune_reachability visits only the states in `self.%s`, the backward search's result, which leaves out the final states: a final Player-1 state keeps the "
+                "actions outside its reachability strategy" % sel[2])
+    if sel[0] == "compr" and sel[1] in sg.loops:
+        S = sg.loops[sel[1]]
+        if S.source in n_all and S.elt == ("elem", S.id) and len(S.filters) == 1 and S.filters[0][0] == "cmp" and S.filters[0][1] == "in" and S.filters[0][2] == ("elem", S.id):
+            U = S.filters[0][3]
+            used = {x[2] for x in C03._sub(U) if x[0] == "attr" and x[1] == ("v", "self")}
+            only_unions = not mentions(U, lambda x: (x[0] == "mcall" and x[2] not in ("union",)) or (x[0] == "call" and x[1] not in ("set", "frozenset", "list", "tuple", "sorted"))
+                                       or x[0] in ("compr", "res", "apply", "ite", "sub", "binop"))
+            if only_unions and used & reach_f and used & final_f and used <= (reach_f | final_f):
+                return ("ok", "prune_reachability visits the states the backward search found and the final states; a non-final state outside them has value 0 like all its "
+                        "successors, so it has nothing to cut (falls back to every position when the search result was not kept)")
+            if only_unions and used and used <= reach_f:
+                return ("bad", "prune_reachability visits only the positions in `%s`, the backward search's result, which leaves out the final states: a final Player-1 state keeps "
+                        "the actions outside its reachability strategy" % show(U)[:60])
+    return (None, "prune_reachability iterates the selection `%s`: that it holds every Player-1 state with something to cut is not resolved" % show(sel)[:80])
 
 
 def r5_no_stale_transition_cache(ctx, chk, rule="C02.5"):
@@ -495,6 +559,11 @@ def r5_no_stale_transition_cache(ctx, chk, rule="C02.5"):
                 if isinstance(n, ast.Attribute) and n.attr == field and isinstance(n.ctx, ast.Load):
                     readers.append((g, n))
         if not readers:
+            continue
+        rest_q = {g_.qual for g_ in shared.restorers(ctx)}
+        if all(g.qual in rest_q for g, _ in readers):
+            chk.ok(rule, init.where(st), "field %s is a snapshot of the transition list read only by %s, which restores the constructor's state" % (
+                field, ", ".join(sorted({g.short for g, _ in readers}))))
             continue
         stale = [w for w in ws if not any(isinstance(n, ast.Attribute) and n.attr == field and isinstance(n.ctx, ast.Store) for n in walk_no_nested_defs(w.node))]
         if stale:
